@@ -8,13 +8,17 @@ EXPLANATION = (
     'V*(selected vectors), and for the real- / complex-shift solvers that the first nev Ritz values are transformed back to '
     'the spectrum of A before the base sort on every normal path and not touched afterwards; every subscript of the Ritz arrays '
     '(restart shift loop with its conjugate-pair look-ahead, nev_adjusted, complex-shift back-transformation) is within the '
-    'array for all sizes (zone analysis shared with C13); every work buffer of the back-transformation loops that is refreshed inside the loop is refreshed on every path from the start of an iteration to each read (no Ritz pair is tested against the previous pair\'s solve). Does NOT decide residuals, '
+    'array for all sizes (zone analysis shared with C13); every work buffer of the back-transformation loops that is refreshed inside the loop is refreshed on every path from the start of an iteration to each read (no Ritz pair is tested against the previous pair\'s solve). Necessary conditions on the factorization the Ritz pairs come from are shared with C07: the sub-diagonal entry is zero '
+    'exactly on breakdown paths, and the factorization is resumed at its own dimension on every init() / compute() history. Does NOT decide residuals, '
     'unit norm, the choice of root in the complex-shift back-transformation or distinctness of pairs.')
 ASSUMPTIONS = ['Eigen kernels and std::sort are correct', 'instantiations listed in drivers/ are representative of every OpType']
 BASE = 'Spectra::GenEigsBase'
 
 
 def run(ctx):
+    from . import factorization as fz
+    fz.resumed_at_own_dimension(ctx, BASE)
+    fz.subdiagonal_on_breakdown(ctx)
     eigsbase.flag_freshness(ctx, BASE)
     eigsbase.coherent_permutation(ctx, BASE)
     eigsbase.coherent_retrieve(ctx, BASE)
